@@ -92,10 +92,13 @@ Q0(stop) == stop - 1
    - is no coarser than the smallest bin containing the interval plus the following base. *)
 OneBin_Decl(x, start, stop, fmt) ==
   IF ~InRange(start, stop, fmt) THEN x = 1
-  ELSE (P0(start, fmt) <= Q0(stop)) =>
-         /\ ValidBin(x)
-         /\ Inside(x, P0(start, fmt), Q0(stop))
-         /\ LevelOf(x) <= SmallestLevel(P0(start, fmt), Q0(stop) + 1)
+  ELSE IF P0(start, fmt) <= Q0(stop)
+       THEN /\ ValidBin(x)
+            /\ Inside(x, P0(start, fmt), Q0(stop))
+            /\ LevelOf(x) <= SmallestLevel(P0(start, fmt), Q0(stop) + 1)
+       \* the EMPTY interval (end = start - 1, in range): there is nothing to contain, and "the interval plus the following base" is that one
+       \* base - so the bin is one of the finest level.  (For start > end + 1 there is no interval at all: the statement is silent.)
+       ELSE (P0(start, fmt) = Q0(stop) + 1) => (ValidBin(x) /\ LevelOf(x) <= SmallestLevel(Q0(stop) + 1, Q0(stop) + 1))
 
 (* C12, set form: contains every bin meeting the interval; only bins meeting it or the base
    on either side.                                                                          *)
